@@ -23,7 +23,7 @@ ASSUMPTIONS = ["nvmon.ref exact reference model", "only removable knots are remo
 FLOORS = {'quick': {'removal': 300, 'probe-lib': 3000, 'probe-defn': 3000, 'structure': 300, 'restored': 120},
           'thorough': {'removal': 4000, 'probe-lib': 40000, 'restored': 1500}}
 MANDATORY_TAGS = ['pdim1', 'pdim2', 'pdim3', 'rational', 'multi-dir-one-call', 'partial-removal', 'full-removal', 'after-refine', 'interleaved',
-                  'via:method', 'via:operations', 'dir:u', 'dir:v', 'dir:w', 'on-knot', 'in-span']
+                  'via:method', 'via:operations', 'dir:u', 'dir:v', 'dir:w', 'on-knot', 'in-span', 'caller-value-removal']
 TECHNIQUE = ("runtime monitoring: shadow-model oracle (exact reference of the original definition + remembered original control "
              "points) evaluated after every removal step of a seeded insert/refine/remove history")
 LEVEL_TEXT = ("Every removal the workload performs is compared exactly with the original shape and structurally with the expected "
@@ -44,6 +44,10 @@ def gen(rng, tier, shard, nshards):
         sd = G.rand_shape(rng, pd, clamped_only=True, **kw)
         yield {'kind': 'history', 'sd': sd, 'seed': rng.randrange(1 << 30),
                'mode': rng.choice(['single', 'single', 'single', 'two', 'two', 'refine', 'multi-dir', 'multi-dir'])}
+        if i % 3 == 1:
+            sd2 = G.rand_shape(rng, pd, clamped_only=True, mindeg=2, **kw)
+            yield {'kind': 'history', 'sd': sd2, 'seed': rng.randrange(1 << 30) | 1, 'mode': rng.choice(['single', 'single', 'two']),
+                   'uservalue': True}
 
 
 def stored_knot(o, d, u):
@@ -263,15 +267,27 @@ def check(case, ctx):
         for _ in range(1 if mode == 'single' else 2):
             d = rng.randrange(pdim)
             # mostly well-conditioned removals (>= 3% of the range away from every knot); a minority down to 1e-3
-            pick = so.pick_insertion(rng, o, d, prefer_knot=0.35, mindist=0.03 if rng.random() < 0.85 else 1e-3)
+            uservalue = case.get('uservalue', False)
+            pick = so.pick_insertion(rng, o, d, prefer_knot=0.35 if not uservalue else 0.0, mindist=0.03 if rng.random() < 0.85 else 1e-3,
+                                     small=0.6 if uservalue else 0.0)
             if pick is None:
                 continue
             u, s, tag = pick
             p = G.degrees_of(o)[d]
             r = rng.randint(1, p - s)
-            with so.quiet():
-                so.call_insert(o, d, u, r, rng.choice(['operations', 'method']))
-            us = stored_knot(o, d, u)
+            if uservalue and r > 1 and rng.random() < 0.5:
+                # the copies arrive in separate calls, each naming the caller's own value
+                with so.quiet():
+                    for _ in range(r):
+                        so.call_insert(o, d, u, 1, rng.choice(['operations', 'method']))
+            else:
+                with so.quiet():
+                    so.call_insert(o, d, u, r, rng.choice(['operations', 'method']))
+            # normally the knot is read back from the object before it is named again; 'uservalue' histories pass the value the
+            # caller inserted (the two can differ in the last bit when the object re-normalises its knot vector)
+            us = stored_knot(o, d, u) if not uservalue else u
+            if uservalue:
+                ctx.tag('caller-value-removal')
             plans.append({'d': d, 'u': us, 'r': r, 's': s})
             ctx.tag(tag.split('-m')[0])
         if not plans:
